@@ -2,19 +2,19 @@ INIT Init
 NEXT Next
 CONSTANTS
   FactorNames <- N_tiny
-  Powers <- P_pm2
-  MaxFactors = 2
+  Powers <- P_pm1
+  MaxFactors = 1
   Mags <- M_one
-  TargetNames <- N_tiny
-  TargetPowers <- P_pm2
-  MaxTFactors = 2
+  TargetNames <- N_small
+  TargetPowers <- P_pm1
+  MaxTFactors = 1
   ScaleKs <- K_one
   Kinds <- Kinds_all
   PerturbNames <- N_base
   RegPool <- Regs2
   Keys = {"energy"}
   HelperNames = {"linspace"}
-  Plan <- Plan_hist2
+  Plan <- Plan_hist3q
 INVARIANT Reversible
 INVARIANT BackIsOriginal
 INVARIANT Composes
